@@ -13,7 +13,7 @@ CHECKS = {
  'C09': dict(engine=M, cat='model_checking', design='7 (C09), 4',
    tech='symbolic execution of the crate MIR (path-based, z3) of Filter::try_from over all ASCII strings up to a bound and filter skeletons with symbolic holes; every path replayed natively (outcome and parse tree)',
    text='Bounded symbolic model checking of the real filter lexer/parser: every ASCII string of length <= 3 (quick) / 4 (thorough) and 29 filter skeletons (operators without operands, unbalanced/nested parentheses, paths, relations, every literal opener) with 2-3 symbolic bytes; no explored path may panic, exceed the step bound or the call-depth bound; one model per path is replayed natively and must give the same outcome and the same tree.',
-   note='Bounds as stated; symbolic bytes are ASCII (the entry takes &str), non-ASCII only in concrete skeleton parts. Evaluation termination with cyclic resolvers is not part of this check yet. Parenthesis depth beyond the call-depth bound (stack exhaustion at ~10^4) is not decided.'),
+   note='Bounds as stated; symbolic bytes are ASCII (the entry takes &str), non-ASCII only in concrete skeleton parts. Evaluation termination: WildcardEq is evaluated over every 3-record ref graph (cycles included) through a caller-supplied resolver and must finish within the step bound. Parenthesis depth beyond the call-depth bound (stack exhaustion at ~10^4) is not decided.'),
  'C01': dict(engine=M, cat='model_checking', design='7 (C01), 4',
    tech='two-stage symbolic execution of the crate MIR: to_zinc of a value with symbolic leaves, then Parser::parse_value over exactly those (symbolic) bytes; z3 decides whether decoded != original; witnesses replayed natively',
    text='For a catalogue of ~85 well-formed value shapes (every scalar kind, lists/dicts/grids nested in each other, grid meta, column meta, Null/missing cells, zero rows) whose leaves are symbolic - strings of <= 2 (quick) / 3 (thorough) arbitrary Unicode scalar values, short decimals, calendar fields - the encoder and then the decoder are executed symbolically from MIR and the solver is asked for a leaf assignment for which decoding fails or yields a different value. Every reported witness is re-run natively (zinc_roundtrip) and must fail there too.',
@@ -46,6 +46,10 @@ CHECKS = {
    tech='symbolic execution of the crate MIR: Display of a filter tree with symbolic leaves, then Filter::try_from over those bytes (print->parse), and the same parse over the text of a reference printer with forked spacing choices; z3 decides whether the trees can differ; witnesses replayed natively',
    text='45 filter tree shapes (every term kind, all six comparison operators, literals of every kind the syntax admits, paths of 1-3 segments, and/or/parentheses combinations) with symbolic names (1-3 bytes, not keywords) and symbolic literal payloads are printed by the real Display impls and parsed back by the real lexer/parser from MIR: the solver is asked for leaves where the text is rejected or the tree differs. The same trees are spelled by a reference printer written from the filter grammar with every token-separator style (space, tab, LF, CRLF, double space, nothing where legal) and must parse to the same tree.',
    note='Bounds: <= 3 terms, parentheses depth <= 2, names <= 3 bytes, literal payloads 1-2 chars/digits; one separator style per sentence for required gaps and one for optional gaps. The reference printer is trusted (written from docHaystack Filters).'),
+ 'C07': dict(engine=M, cat='model_checking', design='7 (C07), 4.5',
+   tech='differential symbolic execution: the crate\'s Eval impls, Dict path resolver and Dict/Grid Filtered impls (MIR) against reference filter semantics written from the specification, on filter trees and records with symbolic payloads; every z3-feasible disagreement is replayed natively',
+   text='Filter trees of 23 shapes (all six comparison operators on 1- and 2-segment paths with literals of five kinds, has/missing, and/or/parentheses combinations) are evaluated from MIR on records whose tags are each absent, Null, Marker, Bool, Number (any non-NaN f64, three unit choices), Str, Ref, a list or a nested dict; on 2-row grids (filter_all and single match); and WildcardEq through a caller-supplied resolver over every 3-record ref graph including cycles. The reference semantics (/verif/spec/filter_eval.py) computes the truth value the filter language defines on the same symbolic data; a feasible path where the two differ is a violation.',
+   note='Bounds: <= 3 terms, paths <= 2 segments, 2 tags, 2 grid rows, 3-node ref graphs; quick tier uses a reduced tag universe for the multi-term shapes. Ordering of Numbers with different units is left open (no query). ^symbol and relationship terms are not covered (need a namespace: C13).'),
 }
 NA = {
  'C14': 'quantifies over thread interleavings on dashmap\'s sharded locks: Kani has no thread model, mirsym is sequential and dashmap is outside the MIR dump; no solver-based engine on this image reaches it (DESIGN.md section 8)',
